@@ -428,7 +428,11 @@ class Parser:
         if w == "while":
             self.i += 1
             if is_kw(self.peek(), "let"):
-                raise SiteError("`while let` is not read by this translator", ln)
+                self.i += 1
+                pat = self.pattern_top()
+                self.expect_p("=")
+                c = ("iflet", ln, pat, self.cond())
+                return ("while", ln, c, self.block_here())
             c = self.cond()
             return ("while", ln, c, self.block_here())
         if w == "unsafe":
@@ -665,6 +669,18 @@ def parse_block(g):
                 p.i += 1
             if not p.eof():
                 p.i += 1
+        elif is_kw(t, "enum") and p.peek(1) is not None and p.peek(1).kind == "ident" and is_group(p.peek(2), "Brace"):
+            # a local enum of unit variants (`enum State { Init, .. }`)
+            name = p.peek(1).text
+            parts, _ = split_top(p.peek(2).sub)
+            vs = []
+            for part in parts:
+                part = [u_ for u_ in part if not (u_.kind == "group" and u_.text == "Bracket") and not u_.is_p("#")]
+                if len(part) != 1 or part[0].kind != "ident":
+                    raise SiteError(f"the local enum `{name}` has a variant that is not a unit variant", ln)
+                vs.append(part[0].text)
+            p.i += 3
+            stmts.append(("enum", ln, name, vs))
         elif is_kw(t, "fn") or is_kw(t, "struct") or is_kw(t, "enum") or is_kw(t, "impl"):
             raise SiteError(f"nested `{t.text}` items are not read by this translator", ln)
         else:
@@ -1118,6 +1134,8 @@ class Interp:
                     raise SiteError("refutable pattern in `let` does not match", s[1])
             elif s[0] == "const":
                 env[-1][s[2]] = self.coerce(self.ev(s[4], env, st), s[3])
+            elif s[0] == "enum":
+                self.mod.enums.setdefault(s[2], [(v, "unit", s[1]) for v in s[3]])
             else:
                 self.ev(s[2], env, st)
         return self.ev(b[3], env, st) if b[3] is not None else UNIT
@@ -1240,12 +1258,20 @@ class Interp:
             return UNIT
         if k == "while":
             while True:
-                c = self.ev(e[2], env, st)
-                self.need(c, "bool", ln)
-                if not c[1]:
-                    break
+                inner = env
+                if e[2][0] == "iflet":
+                    v = self.ev(e[2][3], env, st)
+                    b = {}
+                    if not self.pm(e[2][2], v, b, env, st):
+                        break
+                    inner = env + [b]
+                else:
+                    c = self.ev(e[2], env, st)
+                    self.need(c, "bool", ln)
+                    if not c[1]:
+                        break
                 try:
-                    self.ev(e[3], env, st)
+                    self.ev(e[3], inner, st)
                 except _Continue:
                     continue
                 except _Break:
@@ -1540,6 +1566,14 @@ class Interp:
     def method(self, recv, name, args, st, ln):
         if recv[0] == "parser":
             return parser_stub_method(recv[1], name, args, ln)
+        ext = getattr(self, "ext_methods", {})
+        if (self.type_name(recv), name) in ext:
+            return ext[(self.type_name(recv), name)](recv, args, ln)
+        if recv[0] == "bytebuf":
+            if name == "push" and len(args) == 1 and args[0][0] == "int":
+                recv[1].append(args[0][1])
+                return UNIT
+            raise SiteError(f"method `{name}` on the byte buffer is not evaluated by this translator", ln)
         if recv[0] == "strbuf":
             if name == "push" and len(args) == 1 and args[0][0] == "char":
                 recv[1].append(args[0][1])
@@ -2601,6 +2635,72 @@ def site_leaf_string(mods):
             out.append(([o] + w, _string_run(mod, fn, w, o)))
     return out, fn.line, f"fn SmallString::parse_in, executed on {len(STRING_WORDS)} inputs x 4 option records against the Parser stub"
 
+
+# ----------------------------------------------------------------------------- the number parser, executed
+def _number_words():
+    al = _o("01-+.eE,] x")
+    words = _words(al, 3)
+    words += [_o(t) for t in ("-0.5e+10", "12.50E-3", "1e5]", "0.0 ", "10,", "1.5}", "9:", "1.5:", "-12}", "1e+", "1.e1", "01",
+                               "-01", "0e0", "0E-0,", "123456789012345678901234567890.5e-300 ", "1.2.3", "1ee1", "--1", "+1",
+                               ".5", "1.", "1.5e", "1.5e+ ", "2\t", "2\n", "2\r", "7 ", "7 ", "1٠", "١")]
+    words += [w + [STREAM_ERR] for w in _words(_o("0-.e"), 2)] + [_o("1") + [STREAM_ERR] + _o("2"), [STREAM_ERR]]
+    seen, out = set(), []
+    for w in words:
+        if tuple(w) not in seen:
+            seen.add(tuple(w))
+            out.append(w)
+    return out
+
+
+NUMBER_WORDS = _number_words()
+
+
+def site_leaf_number(mods):
+    """NumberBuf::parse_in -- the loop around the automaton, the buffer, the final check -- executed in each context"""
+    mod = mods("src/parse/number.rs")
+    pmod = mods("src/parse/mod.rs")
+    fn = _impl_parse_in(mod, "NumberBuf")
+    follows = pmod.find_fn("follows", "Context")
+    if "Context" not in pmod.enums:
+        raise SiteError("no `enum Context` found in src/parse/mod.rs")
+
+    def follows_ext(recv, args, ln):
+        v, _ = run(pmod, follows, [recv] + list(args), "a context and a character")
+        return v
+    out = []
+    for k, (name, kind, vln) in enumerate(pmod.enums["Context"]):
+        for w in NUMBER_WORDS:
+            it = Interp(mod)
+            it.externs = {
+                ("Error", "unexpected"): lambda args, ln: ("variant", "Error", "Unexpected", list(args)),
+                (None, "Meta"): lambda args, ln: ("variant", "Meta", "Meta", list(args)),
+                ("SmallVec", "new"): lambda args, ln: ("bytebuf", []),
+                ("NumberBuf", "new_unchecked"): lambda args, ln: args[0],
+            }
+            it.ext_methods = {("Context", "follows"): follows_ext}
+            stub = parser_stub(w)
+            try:
+                v = it.call(fn, [stub, ("variant", "Context", name, [])], "NumberBuf")
+            except EvalPanic as e:
+                raise SiteError(f"`{fn.where()}` panics on the input {[hex(c) for c in w]}: {e}", fn.line)
+            if v[0] != "variant" or v[2] not in ("Ok", "Err"):
+                raise SiteError(f"`{fn.where()}` yields {show_val(v)}, expected a Result", fn.line)
+            x = v[3][0]
+            if v[2] == "Ok":
+                if not (x[0] == "variant" and x[2] == "Meta" and x[3][0][0] == "bytebuf" and x[3][1][0] == "int"):
+                    raise SiteError(f"`{fn.where()}` returns {show_val(x)}, expected Meta(number, index)", fn.line)
+                b = x[3][0][1]
+                o = [0, x[3][1][1], stub[1]["pos"], len(b)] + list(b) + [n for e in stub[1]["cm"] for n in e]
+            elif x[0] == "variant" and x[2] == "Stream":
+                o = [5, x[3][0][1]]
+            elif x[0] == "variant" and x[2] == "Unexpected":
+                c = x[3][1]
+                o = [1, x[3][0][1], 0 if c[2] == "None" else c[3][0][1] + 1]
+            else:
+                raise SiteError(f"`{fn.where()}` fails with {show_val(x)}", fn.line)
+            out.append(([k] + w, o))
+    return out, fn.line, f"fn NumberBuf::parse_in, executed on {len(NUMBER_WORDS)} inputs x {len(pmod.enums['Context'])} contexts against the Parser stub"
+
 def cval_of(v, line):
     k = v[0]
     if k == "int":
@@ -2891,6 +2991,12 @@ def _sites():
                          + " ".join(str(n) for n in o) for w, o in v],
         thm="C12_string_scanner_from_source",
         model="the outcome of Parser.parse_string under the same option record on the same inputs")
+    add(id="leaf_number", file="src/parse/number.rs", props=["C01", "C02", "C05", "C07"], ev=site_leaf_number,
+        ty="list (list N * list N)", coq=lambda v: c_list([f"({c_cps(w)}, {c_cps(o)})" for w, o in v], ";\n   "),
+        items=lambda v: [f"context {w[0]}: " + " ".join("<fails>" if c == STREAM_ERR else u(c) for c in w[1:]) + " -> "
+                         + " ".join(str(n) for n in o) for w, o in v],
+        thm="C01_number_parser_from_source",
+        model="the outcome of Parser.parse_number in the same context on the same inputs")
     add(id="is_control", file="src/parse/string.rs", props=parse_props, ev=site_is_control,
         ty="list (N * N)", coq=c_set, items=s_set, thm="C01_control_from_source",
         model="set_of Parser.is_control char_domain")
